@@ -1,0 +1,142 @@
+//go:build verif
+
+// Accessors used only by the /verif C15 correspondence harness (Encrypted
+// Client Hello). Compiled only with -tags verif; adds no behaviour.
+
+package tls
+
+// VerifC15Hello mirrors the clientHelloMsg fields that marshalMsgReorderOuterExts reads.
+type VerifC15Hello struct {
+	Vers                             uint16
+	Random                           []byte
+	SessionId                        []byte
+	CipherSuites                     []uint16
+	CompressionMethods               []uint8
+	ServerName                       string
+	OcspStapling                     bool
+	SupportedCurves                  []CurveID
+	SupportedPoints                  []uint8
+	TicketSupported                  bool
+	SessionTicket                    []uint8
+	SupportedSignatureAlgorithms     []SignatureScheme
+	SupportedSignatureAlgorithmsCert []SignatureScheme
+	SecureRenegotiationSupported     bool
+	SecureRenegotiation              []byte
+	ExtendedMasterSecret             bool
+	AlpnProtocols                    []string
+	Scts                             bool
+	SupportedVersions                []uint16
+	Cookie                           []byte
+	KeyShares                        []KeyShare
+	EarlyData                        bool
+	PskModes                         []uint8
+	PskLabels                        [][]byte
+	PskAges                          []uint32
+	PskBinders                       [][]byte
+	QuicTransportParameters          []byte
+	EncryptedClientHello             []byte
+}
+
+func (h *VerifC15Hello) toMsg() *clientHelloMsg {
+	m := &clientHelloMsg{
+		vers:                             h.Vers,
+		random:                           h.Random,
+		sessionId:                        h.SessionId,
+		cipherSuites:                     h.CipherSuites,
+		compressionMethods:               h.CompressionMethods,
+		serverName:                       h.ServerName,
+		ocspStapling:                     h.OcspStapling,
+		supportedCurves:                  h.SupportedCurves,
+		supportedPoints:                  h.SupportedPoints,
+		ticketSupported:                  h.TicketSupported,
+		sessionTicket:                    h.SessionTicket,
+		supportedSignatureAlgorithms:     h.SupportedSignatureAlgorithms,
+		supportedSignatureAlgorithmsCert: h.SupportedSignatureAlgorithmsCert,
+		secureRenegotiationSupported:     h.SecureRenegotiationSupported,
+		secureRenegotiation:              h.SecureRenegotiation,
+		extendedMasterSecret:             h.ExtendedMasterSecret,
+		alpnProtocols:                    h.AlpnProtocols,
+		scts:                             h.Scts,
+		supportedVersions:                h.SupportedVersions,
+		cookie:                           h.Cookie,
+		keyShares:                        KeyShares(h.KeyShares).ToPrivate(),
+		earlyData:                        h.EarlyData,
+		pskModes:                         h.PskModes,
+		pskBinders:                       h.PskBinders,
+		quicTransportParameters:          h.QuicTransportParameters,
+		encryptedClientHello:             h.EncryptedClientHello,
+	}
+	for i, l := range h.PskLabels {
+		m.pskIdentities = append(m.pskIdentities, pskIdentity{label: l, obfuscatedTicketAge: h.PskAges[i]})
+	}
+	return m
+}
+
+// VerifC15MarshalFull is clientHelloMsg.marshalMsg(false): the uncompressed hello.
+func VerifC15MarshalFull(h *VerifC15Hello) ([]byte, error) { return h.toMsg().marshalMsg(false) }
+
+// VerifC15EncodeInner calls encodeInnerClientHelloReorderOuterExts; reorder=false passes a nil
+// outerExts (= encodeInnerClientHello), reorder=true passes outerExts as a non-nil slice.
+func VerifC15EncodeInner(h *VerifC15Hello, maxNameLength int, outerExts []uint16, reorder bool) ([]byte, error) {
+	if !reorder {
+		return encodeInnerClientHello(h.toMsg(), maxNameLength)
+	}
+	oe := make([]uint16, len(outerExts))
+	copy(oe, outerExts)
+	return encodeInnerClientHelloReorderOuterExts(h.toMsg(), maxNameLength, oe)
+}
+
+// VerifC15DecodeInner calls decodeInnerClientHello with an outer hello that has the given raw
+// bytes and session id. It returns the reconstructed raw inner hello and its server name.
+func VerifC15DecodeInner(outerOriginal, outerSessionID, encoded []byte) (recon []byte, serverName string, err error) {
+	outer := &clientHelloMsg{original: outerOriginal, sessionId: outerSessionID}
+	inner, err := decodeInnerClientHello(outer, encoded)
+	if err != nil {
+		return nil, "", err
+	}
+	return inner.original, inner.serverName, nil
+}
+
+// VerifC15State is what a UConn holds for ECH after its ClientHello was marshalled.
+type VerifC15State struct {
+	HasECH         bool
+	InnerFull      []byte // echCtx.innerHello.marshalMsg(false)
+	InnerName      string
+	InnerKeyShares []KeyShare
+	MaxNameLength  uint8
+	ConfigID       uint8
+	KdfID, AeadID  uint16
+	PublicName     string
+	Enc            []byte
+	ExtensionsList []uint16
+	OuterKeyShares []KeyShare // HandshakeState.Hello.KeyShares
+	ConnServerName string     // c.serverName
+}
+
+func VerifC15GetState(uc *UConn) (*VerifC15State, error) {
+	st := &VerifC15State{ExtensionsList: uc.extensionsList(), ConnServerName: uc.serverName}
+	if uc.HandshakeState.Hello != nil {
+		st.OuterKeyShares = uc.HandshakeState.Hello.KeyShares
+	}
+	ech := uc.echCtx
+	if ech == nil || ech.innerHello == nil {
+		return st, nil
+	}
+	st.HasECH = true
+	full, err := ech.innerHello.marshalMsg(false)
+	if err != nil {
+		return nil, err
+	}
+	st.InnerFull = full
+	st.InnerName = ech.innerHello.serverName
+	st.InnerKeyShares = keyShares(ech.innerHello.keyShares).ToPublic()
+	st.MaxNameLength = ech.config.MaxNameLength
+	st.ConfigID = ech.config.ConfigID
+	st.KdfID, st.AeadID = ech.kdfID, ech.aeadID
+	st.PublicName = string(ech.config.PublicName)
+	st.Enc = ech.encapsulatedKey
+	return st, nil
+}
+
+// VerifC15HostnameInSNI exposes hostnameInSNI.
+func VerifC15HostnameInSNI(name string) string { return hostnameInSNI(name) }
